@@ -1304,6 +1304,8 @@ class C04(Property):
         dest = '-' if case['dest'] is None else '%d:%d' % tuple(case['dest'])
         if case.get('reuse') == 1:
             dest = '420:11'        # left by the earlier save through the same saver object
+        elif case.get('sym'):
+            dest = 'L' + dest      # the destination path is a symbolic link: the driver runs the link-aware model
         return ' '.join(['S' if case.get('kind') == 'sys' else 'A', str(case['umask']), dest, str(self.stale(case))] + evs)
 
     def render(self, case, obs):
